@@ -36,7 +36,9 @@ Definition set_late (p : pay) := mkPay (p_sid p) (p_tid p) (p_key p) (p_ds p) (p
 Inductive op :=
 | Arr (sid tid key ds : N)      (* a span arrives at the incoming router *)
 | Stress (b : bool)             (* stress relief switches on / off *)
-| FlushUp | FlushPeer.          (* the upstream / peer transmission dispatches all pending batches *)
+| FlushUp | FlushPeer           (* the upstream / peer transmission dispatches all pending batches *)
+| Probe (sid tid key ds : N).   (* a PROBE sent by another (stressed) node arrives at this node's peer router:
+                                   processEvent discards it before anything else (also when this node is stressed) *)
 
 Inductive out :=
 | Post (upstream : bool) (host key ds : N) (evs : list pay)   (* one HTTP batch request as sent *)
@@ -71,6 +73,7 @@ Section StressRoute.
 
   Definition vstep (s : vstate) (o : op) : vstate * list out :=
     match o with
+    | Probe _ _ _ _ => (s, [])
     | Stress b => ({| v_st := b; v_dec := v_dec s; v_up := v_up s; v_pr := v_pr s; v_buf := v_buf s |}, [])
     | FlushUp => ({| v_st := v_st s; v_dec := v_dec s; v_up := []; v_pr := v_pr s; v_buf := v_buf s |},
                   map (vpost true) (groups (length (v_up s)) (v_up s)))
@@ -130,6 +133,7 @@ Section StressRoute.
 
   Definition hstep (s : hstate) (o : op) : hstate * list out :=
     match o with
+    | Probe _ _ _ _ => (s, [])                                  (* `dropping probe` *)
     | Stress b => ({| h_hp := h_hp s; h_nxt := h_nxt s; h_st := b; h_dec := h_dec s; h_up := h_up s; h_pr := h_pr s; h_buf := h_buf s |}, [])
     | FlushUp => ({| h_hp := h_hp s; h_nxt := h_nxt s; h_st := h_st s; h_dec := h_dec s; h_up := []; h_pr := h_pr s; h_buf := h_buf s |},
                   map (hpost (h_hp s) true) (groups (length (h_up s)) (h_up s)))
